@@ -10,4 +10,5 @@ CONSTANTS
   Emit = FALSE
 INVARIANTS TypeOK Injective OrderSensitive NestingSensitive UniqueDecoding
 POSTCONDITION Stats
+ALIAS Shown
 CHECK_DEADLOCK FALSE
